@@ -135,6 +135,29 @@ Definition run_ccase (c : bool * list ddesc * list Z * list zcop) : val :=
   VL (obs_c g s0 :: crun fin ds g s0 (map to_cop ops)).
 
 (** a single entry point so that one generated cases file can hold both kinds *)
-Inductive anycase := ACalc (c : list cdesc * list Z * list zop) | ACtl (c : bool * list ddesc * list Z * list zcop).
+(** ** rule export/import runner.  Values are integers scaled by the harness
+    (exact for the boundary values it generates).  case = (numeric, current
+    setting of the target, source setting); settings as (kind, lower, v, upper)
+    with kind 0 = ConstVal, 1 = numeric Var, 2 = non-scalar Var.  Output: keys of
+    the exported rule, and the setting the import produces. *)
+Definition zsetting := (Z * Z * Z * Z)%type.
+Definition to_setting (d : zsetting) : setting Z :=
+  let '(k, l, v, u) := d in if k =? 0 then SConst Z v else if k =? 1 then SVar Z l v u else SNVar Z v.
+Definition obs_setting (o : outcome Z) : val :=
+  match o with
+  | ROk _ (SConst _ v) => VL [VZ 0; VZ v]
+  | ROk _ (SVar _ l v u) => VL [VZ 1; VZ l; VZ v; VZ u]
+  | ROk _ (SNVar _ v) => VL [VZ 2; VZ v]
+  | RAssertionError _ => VE 9
+  | RValueError _ => VE 2
+  end.
+Definition run_rcase (c : bool * zsetting * zsetting) : val :=
+  let '(numeric, cur, src) := c in
+  let r := export Z (to_setting src) in
+  VL [VL (map VB (rule_keys Z r));
+      obs_setting (import Z Z.ltb (fun v => negb (v =? 0)) 0 10000000 numeric (to_setting cur) r)].
+
+Inductive anycase := ACalc (c : list cdesc * list Z * list zop) | ACtl (c : bool * list ddesc * list Z * list zcop)
+                   | ARule (c : bool * zsetting * zsetting).
 Definition run_any (c : anycase) : val :=
-  match c with ACalc c => run_case c | ACtl c => run_ccase c end.
+  match c with ACalc c => run_case c | ACtl c => run_ccase c | ARule c => run_rcase c end.
